@@ -28,6 +28,8 @@ pub enum ClipSpec {
     Path(PathSpec),
     /// rect pushed after path
     PathRect(PathSpec, (i32, i32, i32, i32)),
+    /// path, then rect, then a second path: the clip coverage is the product of the two path coverages inside the rect
+    PathRectPath(PathSpec, (i32, i32, i32, i32), PathSpec),
 }
 
 #[derive(Clone, Debug, Serialize, Deserialize)]
@@ -117,6 +119,11 @@ fn render(c: &Case, ox: i32, oy: i32) -> Vec<u32> {
             dt.push_clip(&shift_path(p, ox, oy).build());
             dt.push_clip_rect(irect(r.0 + ox, r.1 + oy, r.2 + ox, r.3 + oy));
         }
+        ClipSpec::PathRectPath(p, r, q) => {
+            dt.push_clip(&shift_path(p, ox, oy).build());
+            dt.push_clip_rect(irect(r.0 + ox, r.1 + oy, r.2 + ox, r.3 + oy));
+            dt.push_clip(&shift_path(q, ox, oy).build());
+        }
     }
     harmless_prelude(&mut dt, (c.w * 7 + c.h * 13 + c.mode as i32 * 5 + (c.alpha.to_bits() >> 7) as i32) as u32);
     let opts = DrawOptions { blend_mode: BLEND_MODES[c.mode as usize], alpha: c.alpha, antialias: AntialiasMode::Gray };
@@ -176,6 +183,11 @@ fn render(c: &Case, ox: i32, oy: i32) -> Vec<u32> {
         match &c.clip {
             ClipSpec::None => {}
             ClipSpec::PathRect(..) => {
+                dt.pop_clip();
+                dt.pop_clip();
+            }
+            ClipSpec::PathRectPath(..) => {
+                dt.pop_clip();
                 dt.pop_clip();
                 dt.pop_clip();
             }
@@ -305,6 +317,28 @@ pub fn check(c: &Case) -> CheckResult {
             apply_path(&mut cs, p);
             apply_rect(&mut cs, *r);
         }
+        ClipSpec::PathRectPath(p, r, q) => {
+            apply_path(&mut cs, p);
+            let first = cs.clone();
+            apply_path(&mut cs, q);
+            // the product of the two path coverages, rounded either way (how the product is rounded is not
+            // this property's subject)
+            for i in 0..n {
+                let mut v: Vec<u32> = Vec::new();
+                for a in &first[i] {
+                    for b in &cs[i] {
+                        let pr = a * b;
+                        for cand in [pr / 255, (pr + 127) / 255, (pr + 254) / 255] {
+                            if !v.contains(&cand) {
+                                v.push(cand);
+                            }
+                        }
+                    }
+                }
+                cs[i] = v;
+            }
+            apply_rect(&mut cs, *r);
+        }
     }
     let got = render(c, 0, 0);
     let mut kinds = std::collections::HashSet::new();
@@ -332,7 +366,7 @@ pub fn check(c: &Case) -> CheckResult {
         // an antialiased coverage byte may legitimately be 16k or 16k-1 depending on where the span
         // starts (C01), so for that route the translated render is judged by the formula again
         // instead of bit-compared
-        let aa_fill = matches!(c.route, Route::Fill { aa: true, .. }) || matches!(c.clip, ClipSpec::Path(_) | ClipSpec::PathRect(..));
+        let aa_fill = matches!(c.route, Route::Fill { aa: true, .. }) || matches!(c.clip, ClipSpec::Path(_) | ClipSpec::PathRect(..) | ClipSpec::PathRectPath(..));
         for i in 0..n {
             if aa_fill {
                 if let Err(m) = judge_pixel(mode, s_img[i], c.init[i], &ms[i], &cs[i], got2[i], TOL) {
@@ -377,6 +411,7 @@ pub fn check(c: &Case) -> CheckResult {
         ClipSpec::Rect(..) => "clip:rect",
         ClipSpec::Path(_) => "clip:path",
         ClipSpec::PathRect(..) => "clip:path+rect",
+        ClipSpec::PathRectPath(..) => "clip:path+rect+path",
     });
     o.class_if(mode != SRC_OVER, "non-srcover");
     o.class(c.src.kind());
@@ -403,6 +438,7 @@ pub fn strategy(ctx: &Ctx) -> BoxedStrategy<Case> {
                 3 => grid_poly(w, h, false).prop_map(ClipSpec::Path),
                 1 => grid_poly(w, h, true).prop_map(ClipSpec::Path),
                 1 => (grid_poly(w, h, false), int_rect(w, h)).prop_map(|(p, r)| ClipSpec::PathRect(p, r)),
+                1 => (grid_poly(w, h, false), int_rect(w, h), grid_poly(w, h, false)).prop_map(|(p, r, q)| ClipSpec::PathRectPath(p, r, q)),
             ];
             let src = prop_oneof![12 => solid_src(), 4 => image_src(4), 4 => gradient_src(&ctx, w.max(h) as f32), 1 => degenerate_gradient_src(&ctx, w.max(h) as f32)];
             // a layer rectangle with a non-empty part on the surface, origin usually not (0,0)
@@ -511,14 +547,14 @@ pub fn property(ctx: &Ctx) -> Property {
     let c = ctx.clone();
     Property {
         id: "C03",
-        rule: "part px: 1..8 x 1..8 surfaces (one in thirteen 257..300 x 1..2 or 1..2 x 257..300, one in fifty 1024..4096 x 1) where every pixel has its own premultiplied previous value; source solid/image/gradient under global alpha; coverage delivered by mask() bytes (each pixel its own byte), by AA or aliased fills of quarter-grid polygons (exact coverage from the 4x4 model), by fill_rect and clear (for solid sources one fill / fill_rect in four is described in user units 2^7 or 2^14 times smaller under the matching transform, exactly the same device geometry, so that the inverse transform has entries beyond 32768; clear under a translation, scale, quarter turn or singular transform in two thirds of its cases: it is not positioned by the transform); clip none / rect / quarter-grid path / path then rect; 28 blend modes; in 30% of the cases the whole draw happens inside a layer pushed under an offset clip rectangle (layer origin != (0,0)). Oracle per pixel: exactly previous at weight 0, exactly blend(source, previous) at full weight, otherwise within 3/255 of the real-arithmetic coverage-weighted formula; source colour read from a Src render of the same source (solid sources checked against colour x alpha); same inputs translated by whole pixels must give bit-identical pixels. part sweep: exhaustive mode x coverage byte 0..255 x clip {none, full path, empty path} over a premultiplied boundary lattice of (source, previous) pairs. Non-trivial: case with >=1 partially weighted pixel, or a full-weight pixel under a mode other than SrcOver; distinct by hash of (size, source, alpha, mode, route, clip).",
+        rule: "part px: 1..8 x 1..8 surfaces (one in thirteen 257..300 x 1..2 or 1..2 x 257..300, one in fifty 1024..4096 x 1) where every pixel has its own premultiplied previous value; source solid/image/gradient under global alpha; coverage delivered by mask() bytes (each pixel its own byte), by AA or aliased fills of quarter-grid polygons (exact coverage from the 4x4 model), by fill_rect and clear (for solid sources one fill / fill_rect in four is described in user units 2^7 or 2^14 times smaller under the matching transform, exactly the same device geometry, so that the inverse transform has entries beyond 32768; clear under a translation, scale, quarter turn or singular transform in two thirds of its cases: it is not positioned by the transform); clip none / rect / quarter-grid path / path then rect / path, rect, then a second path (clip coverage = product of the two path coverages, rounded either way); 28 blend modes; in 30% of the cases the whole draw happens inside a layer pushed under an offset clip rectangle (layer origin != (0,0)). Oracle per pixel: exactly previous at weight 0, exactly blend(source, previous) at full weight, otherwise within 3/255 of the real-arithmetic coverage-weighted formula; source colour read from a Src render of the same source (solid sources checked against colour x alpha); same inputs translated by whole pixels must give bit-identical pixels. part sweep: exhaustive mode x coverage byte 0..255 x clip {none, full path, empty path} over a premultiplied boundary lattice of (source, previous) pairs. Non-trivial: case with >=1 partially weighted pixel, or a full-weight pixel under a mode other than SrcOver; distinct by hash of (size, source, alpha, mode, route, clip).",
         assumptions: vec![
             "blend(source, previous) is sw_composite::blend::<Mode>::blend, the formula library the property names",
             "between weight 0 and 1 the rounding scheme is not pinned: +-3/255 per channel",
             "AA coverage is known up to C01's 16k / 16k-1 alternatives; a pixel is accepted if any admissible coverage explains it",
         ],
         parts: vec![part("px", 160_000, 3_000_000, move || strategy(&c), check), enum_part("sweep", 28 * 256 * 3, 28 * 256 * 3, sweep_decode, check_sweep)],
-        min_class_fraction: vec![("px", "px:partial", 0.3), ("px", "non-srcover", 0.3), ("px", "clip:path", 0.15), ("px", "route:mask", 0.15), ("px", "px:w=1", 0.2), ("px", "inside-layer-with-nonzero-origin", 0.1)],
+        min_class_fraction: vec![("px", "px:partial", 0.3), ("px", "non-srcover", 0.3), ("px", "clip:path", 0.15), ("px", "clip:path+rect+path", 0.03), ("px", "route:mask", 0.15), ("px", "px:w=1", 0.2), ("px", "inside-layer-with-nonzero-origin", 0.1)],
         panic_is_violation: false,
     }
 }
